@@ -3,7 +3,7 @@ from . import world2
 
 CLASSES = {"C15": ("emg", "fpcal", "fpdata"), "C16": ("data3d", "ft", "emg"),
            "C20": world2.ALL}
-BAD_KINDS = ["len+1", "len-1", "len+2", "len+7", "len-99", "shape:2d", "kind:str", "kind:none", "kind:int", "kind:array",
+BAD_KINDS = ["len+1", "len-1", "len+2", "len+7", "len-99", "shape:2d", "reassign", "kind:str", "kind:none", "kind:int", "kind:array",
              "kind:other_item"]
 
 
@@ -102,6 +102,8 @@ def gen_run(rng, prop, index, tier):
                             "by": rng.choice(("index", "object"))})
         elif r < 0.92:
             ops.append({"op": "edit", "a": a, "k": rng.randint(0, 9)})
+        elif r < 0.935 and cls == "data3d":
+            ops.append({"op": "link", "a": a, "k": rng.randint(0, 9)})
         elif r < 0.95:
             ops.append({"op": "touch_callers_list", "a": a, "how": rng.choice(("append", "append", "pop"))})
         elif r < 0.97:
